@@ -41,6 +41,20 @@ type nativeStr struct{ s string }
 
 func (e nativeStr) String() string { return e.s }
 
+// syncMapOf returns the model map of a sync.Map object; write=true reports the mutation to the monitor.
+func syncMapOf(fr *frame, recv value, write bool) *omap {
+	p := recv.(*value)
+	m := fr.i.syncMaps[p]
+	if m == nil {
+		m = newOmap(types.NewInterfaceType(nil, nil).Complete())
+		fr.i.syncMaps[p] = m
+	}
+	if write && fr.i.monitor != nil {
+		fr.i.monitor.onStore(fr, p)
+	}
+	return m
+}
+
 func allConcrete(args []value) bool {
 	for _, a := range args {
 		if hasSymbolicDeep(a, 0) {
@@ -326,6 +340,55 @@ func init() {
 				fr.i.ex.poolPutHook(fr, p, args[1])
 			}
 			fr.i.pools[p] = append(fr.i.pools[p], args[1])
+			return nil, true
+		},
+		// sync.Map model (single thread of control): an insertion-ordered map per object. A mutation
+		// counts as a store to the object for the ownership monitor (a package-level sync.Map is shared
+		// mutable state however race-free it is).
+		"(*sync.Map).Load": func(fr *frame, args []value) (value, bool) {
+			m := syncMapOf(fr, args[0], false)
+			if v, ok := m.lookup(args[1]); ok {
+				return tuple{v, true}, true
+			}
+			return tuple{iface{}, false}, true
+		},
+		"(*sync.Map).Store": func(fr *frame, args []value) (value, bool) {
+			syncMapOf(fr, args[0], true).insert(args[1], args[2])
+			return nil, true
+		},
+		"(*sync.Map).LoadOrStore": func(fr *frame, args []value) (value, bool) {
+			m := syncMapOf(fr, args[0], false)
+			if v, ok := m.lookup(args[1]); ok {
+				return tuple{v, true}, true
+			}
+			syncMapOf(fr, args[0], true).insert(args[1], args[2])
+			return tuple{args[2], false}, true
+		},
+		"(*sync.Map).LoadAndDelete": func(fr *frame, args []value) (value, bool) {
+			m := syncMapOf(fr, args[0], false)
+			if v, ok := m.lookup(args[1]); ok {
+				syncMapOf(fr, args[0], true).delete(args[1])
+				return tuple{v, true}, true
+			}
+			return tuple{iface{}, false}, true
+		},
+		"(*sync.Map).Delete": func(fr *frame, args []value) (value, bool) {
+			m := syncMapOf(fr, args[0], false)
+			if _, ok := m.lookup(args[1]); ok {
+				syncMapOf(fr, args[0], true).delete(args[1])
+			}
+			return nil, true
+		},
+		"(*sync.Map).Range": func(fr *frame, args []value) (value, bool) {
+			m := syncMapOf(fr, args[0], false)
+			for _, e := range append([]oentry{}, m.entries...) {
+				if !e.alive {
+					continue
+				}
+				if !truth(call(fr.i, fr, token.NoPos, args[1], []value{e.key, e.val})) {
+					break
+				}
+			}
 			return nil, true
 		},
 		"(*sync.Mutex).Lock":      nop0,
